@@ -378,8 +378,17 @@ func c09One(r *explore.Result, kind string, seedN int, w *tls.Weights, corner bo
 	if w != nil {
 		wBefore = *w
 	}
-	s1, err1 := tls.UTLSIdToSpec(c09ID(kind, seed, w))
-	s2, err2 := tls.UTLSIdToSpec(c09ID(kind, seed, w))
+	seedBefore := *seed
+	// both builds go through ONE ClientHelloID value (one Seed pointer), as a caller that keeps its id does
+	id1 := c09ID(kind, seed, w)
+	s1, err1 := tls.UTLSIdToSpec(id1)
+	s2, err2 := tls.UTLSIdToSpec(id1)
+	if id1.Seed != nil && *id1.Seed != seedBefore {
+		r.Violate("C09|seed-modified", "%s: generating the spec changed the Seed the ClientHelloID points to", what)
+	}
+	if id1.Weights != nil && w != nil && *id1.Weights != wBefore {
+		r.Violate("C09|weights-modified|id", "%s: generating the spec changed the Weights the ClientHelloID points to", what)
+	}
 	if err1 != nil || err2 != nil {
 		r.Violate("C09|generator-error", "%s: %v / %v", what, err1, err2)
 		return "error"
